@@ -9,7 +9,7 @@ from ..ref import ws as refws
 
 LEVEL = 'exploration'
 TECHNIQUE = 'online trace monitor (event-grammar automaton + bounded-termination rule) over bounded-exhaustive histories on a virtual clock'
-BUDGET_S = {'quick': 50, 'thorough': 280}
+BUDGET_S = {'quick': 75, 'thorough': 280}
 REQUIRED = {'all': ['oracle.grammar_checked', 'oracle.terminated_runs', 'oracle.connect_phase_runs', 'oracle.reconnect_runs']}
 RULE = ('bounded-exhaustive histories: handshake variant x every sequence of <= D server steps from an 18-step '
         'alphabet (data/control/invalid frames, close variants, half frame, silence, EOF, ECONNRESET) x 16 '
@@ -104,6 +104,9 @@ def cases(tier, seed, i, n):
         for timer in ('ping_timeout', 'close_timeout'):
             for astuck in ('send_binary', 'send_ping'):
                 yield dict(kind='stalled-writer', timer=timer, astuck=astuck)
+                # ... and the same with the stalled send on ANOTHER WebSocket object of the process: nothing this
+                # connection needs to end may be held by that one
+                yield dict(kind='stalled-writer', timer=timer, astuck=astuck, other=True)
         for hs in HS:
             for d in range(0, depth + 1):
                 if hs in ('200', 'wrong-accept', 'oversize') and d > 1:
@@ -112,7 +115,7 @@ def cases(tier, seed, i, n):
                     yield dict(kind='hist', hs=hs, seq=list(seq), seg='perstep')
         yield gen.mark('every sequence of <= %d server steps (18-step alphabet) x 6 handshake variants x 16 policies x 3 timer settings' % depth)
         rnd = random.Random(seed * 8191 + 7)
-        for _ in range(4000 if tier == 'quick' else 60000):
+        for _ in range(3000 if tier == 'quick' else 60000):
             d = rnd.randint(3, 5) if tier == 'quick' else rnd.randint(4, 6)
             yield dict(kind='hist', hs=rnd.choice(list(HS)), seq=[rnd.choice(STEPS) for _ in range(d)],
                        seg=rnd.choice(('perstep', 'coalesced', 'bytewise')),
@@ -273,6 +276,13 @@ def run_stalled_writer(case, acc):
             for ev in g:
                 if ev.name == 'poll':
                     break
+            wsa = ws
+            if case.get('other'):
+                wsa = _env.WebSocket('ws://other.example/', proxies={})
+                ga = wsa.connect(session_class=simnet.SimSession, ping_rate=0, poll=5.0)
+                for ev in ga:
+                    if ev.name == 'poll':
+                        break
             s = sched.Scheduler(files=sched.WRITE_PATH_FILES)
             stuck = schedlock.SchedLock(False)
             stuck.owner = 'never-released'
@@ -290,9 +300,9 @@ def run_stalled_writer(case, acc):
 
             def thread_a():
                 if case['astuck'] == 'send_ping':
-                    ws.send_ping(b'stalled')
+                    wsa.send_ping(b'stalled')
                 else:
-                    ws.send_binary(b'stalled ' * 40)
+                    wsa.send_binary(b'stalled ' * 40)
 
             def thread_b():
                 try:
@@ -322,10 +332,10 @@ def run_stalled_writer(case, acc):
         acc.inconclusive.append('stalled-writer run: thread A never reached the socket write %r' % (detail,))
         return
     if 'disconnected' not in events:
-        acc.violation('no-termination-after-timeout-fired:close-waits-for-a-send-stalled-on-the-same-connection',
+        acc.violation('no-termination-after-timeout-fired:close-waits-for-a-send-stalled-on-' + ('another-connection' if case.get('other') else 'the-same-connection'),
                       'C07: %s fires while another thread is stalled in %s' % (timer, case['astuck']), case, detail)
     else:
-        acc.cls('stalled-writer/%s/%s' % (timer, case['astuck']))
+        acc.cls('stalled-writer/%s/%s/%s' % (timer, case['astuck'], bool(case.get('other'))))
 
 
 def run_conn(case, acc):
